@@ -18,6 +18,7 @@ pub mod c19;
 pub mod c20;
 pub mod backend;
 pub mod common;
+pub mod corecase;
 
 use crate::runner::Ctx;
 use std::path::Path;
